@@ -6,7 +6,7 @@ pub mod script;
 pub mod sub;
 
 use rsactor::{Actor, ActorControl, ActorRef, ActorWeak, AskHandler, Message, TellHandler, WeakActorControl, WeakAskHandler, WeakTellHandler};
-use script::{Action, HItem, HOut, Kind, ROut};
+use script::{Action, Flavour, HItem, HOut, Kind, ROut};
 use std::collections::BTreeMap;
 use std::fmt::Write as _;
 use std::future::Future;
@@ -17,8 +17,15 @@ use std::time::Duration;
 use tokio::sync::Notify;
 use tokio::task::JoinHandle;
 
-pub const TICK: Duration = Duration::from_secs(3600);
-pub const BARRIER: Duration = Duration::from_millis(1);
+/// virtual mode: one tick = one hour of paused clock, barrier 1 ms; real-time mode (blocking API):
+/// one tick = 800 ms of wall clock, barrier 40 ms
+pub static REALTIME: std::sync::atomic::AtomicBool = std::sync::atomic::AtomicBool::new(false);
+pub fn tick() -> Duration {
+    if REALTIME.load(std::sync::atomic::Ordering::Relaxed) { Duration::from_millis(800) } else { Duration::from_secs(3600) }
+}
+pub fn barrier_len() -> Duration {
+    if REALTIME.load(std::sync::atomic::Ordering::Relaxed) { Duration::from_millis(40) } else { Duration::from_millis(1) }
+}
 
 #[derive(Debug)]
 pub struct Tagged(pub u64);
@@ -245,7 +252,7 @@ pub async fn do_op(h: &SRef, o: u64, k: Kind, tmo: Option<u64>) -> String {
 }
 
 pub async fn do_op_erased(e: &EStrong, o: u64, k: Kind, tmo: Option<u64>) -> String {
-    let d = |t: u64| TICK * t as u32;
+    let d = |t: u64| tick() * t as u32;
     match (k, tmo, o % 4) {
         (Kind::Tell, None, 0) => s_result(&e.t0.tell(M::<0> { o }).await, |_| 0),
         (Kind::Tell, None, 1) => s_result(&e.t1.tell(M::<1> { o }).await, |_| 0),
@@ -287,7 +294,7 @@ pub async fn do_op_typed(r: &ActorRef<SA>, o: u64, k: Kind, tmo: Option<u64>) ->
             by_type!(go)
         }
         (Kind::Tell, Some(t)) => {
-            macro_rules! go { ($k:literal) => { s_result(&r.tell_with_timeout(M::<$k> { o }, TICK * t as u32).await, |_| 0) }; }
+            macro_rules! go { ($k:literal) => { s_result(&r.tell_with_timeout(M::<$k> { o }, tick() * t as u32).await, |_| 0) }; }
             by_type!(go)
         }
         (Kind::Ask, None) => {
@@ -295,10 +302,42 @@ pub async fn do_op_typed(r: &ActorRef<SA>, o: u64, k: Kind, tmo: Option<u64>) ->
             by_type!(go)
         }
         (Kind::Ask, Some(t)) => {
-            macro_rules! go { ($k:literal) => { s_result(&r.ask_with_timeout(M::<$k> { o }, TICK * t as u32).await, rep_val(o)) }; }
+            macro_rules! go { ($k:literal) => { s_result(&r.ask_with_timeout(M::<$k> { o }, tick() * t as u32).await, rep_val(o)) }; }
             by_type!(go)
         }
         (Kind::Stop, _) => s_result(&r.stop().await, |_| 0),
+    }
+}
+
+/// blocking_tell / blocking_ask / the deprecated aliases, from whatever thread this runs on
+#[allow(deprecated)]
+pub fn blocking_op(r: &ActorRef<SA>, o: u64, k: Kind, tmo: Option<u64>, fl: Flavour) -> String {
+    let d = tmo.map(|t| tick() * t as u32);
+    // the deprecated aliases must IGNORE their timeout: give them a very short one
+    let dshort = Some(Duration::from_millis(5));
+    macro_rules! by_type {
+        ($m:ident) => {
+            match o % 4 { 0 => $m!(0), 1 => $m!(1), 2 => $m!(2), _ => $m!(3) }
+        };
+    }
+    match (k, fl) {
+        (Kind::Tell, Flavour::Deprecated) => {
+            macro_rules! go { ($k:literal) => { s_result(&r.tell_blocking(M::<$k> { o }, dshort), |_| 0) }; }
+            by_type!(go)
+        }
+        (Kind::Ask, Flavour::Deprecated) => {
+            macro_rules! go { ($k:literal) => { s_result(&r.ask_blocking(M::<$k> { o }, dshort), rep_val(o)) }; }
+            by_type!(go)
+        }
+        (Kind::Tell, _) => {
+            macro_rules! go { ($k:literal) => { s_result(&r.blocking_tell(M::<$k> { o }, d), |_| 0) }; }
+            by_type!(go)
+        }
+        (Kind::Ask, _) => {
+            macro_rules! go { ($k:literal) => { s_result(&r.blocking_ask(M::<$k> { o }, d), rep_val(o)) }; }
+            by_type!(go)
+        }
+        (Kind::Stop, _) => "skipped".into(),
     }
 }
 
@@ -553,7 +592,7 @@ impl Director {
     }
 
     pub async fn barrier(&self) {
-        tokio::time::sleep(BARRIER).await;
+        tokio::time::sleep(barrier_len()).await;
     }
 
     pub async fn act(&mut self, act: &Action) {
@@ -597,7 +636,52 @@ impl Director {
                     self.sh.st.lock().unwrap().slots.insert(idx, Slot::Strong(h));
                 }
             }
-            Action::Op { o, k, slot, tmo } => {
+            Action::Op { o, k, slot, tmo, fl } if *fl != Flavour::Async && *k != Kind::Stop => {
+                if op_fresh(&self.sh, *o) {
+                    match strong_slot(&self.sh, *slot) {
+                        Some(SRef::Typed(r)) => {
+                            {
+                                let mut st = self.sh.st.lock().unwrap();
+                                st.results.insert(*o, "pending".into());
+                                st.stamp('b', *o);
+                            }
+                            let sh = self.sh.clone();
+                            let (o, k, tmo, fl) = (*o, *k, *tmo, *fl);
+                            let t = target_of(&sh, &SRef::Typed(r.clone()));
+                            let job = move || {
+                                let res = blocking_op(&r, o, k, tmo, fl);
+                                drop(r);
+                                record_result(&sh, o, k, t, res);
+                            };
+                            match fl {
+                                Flavour::BlockSpawnBlocking => {
+                                    tokio::task::spawn_blocking(job);
+                                }
+                                Flavour::BlockInside => {
+                                    // directly inside an async task: must not panic (timeout variants)
+                                    let sh2 = self.sh.clone();
+                                    let h = tokio::spawn(async move { job() });
+                                    tokio::spawn(async move {
+                                        if let Err(e) = h.await {
+                                            if e.is_panic() {
+                                                sh2.st.lock().unwrap().monitor_failures.push(
+                                                    "C17 blocking call with timeout panicked inside the runtime".into());
+                                            }
+                                        }
+                                    });
+                                }
+                                _ => {
+                                    std::thread::spawn(job);
+                                }
+                            }
+                        }
+                        _ => {
+                            self.sh.st.lock().unwrap().results.insert(*o, "skipped".into());
+                        }
+                    }
+                }
+            }
+            Action::Op { o, k, slot, tmo, .. } => {
                 if op_fresh(&self.sh, *o) {
                     match strong_slot(&self.sh, *slot) {
                         None => {
@@ -718,7 +802,7 @@ impl Director {
             }
             Action::Advance { k } => {
                 if *k > 0 {
-                    tokio::time::sleep(TICK * (*k as u32)).await;
+                    tokio::time::sleep(tick() * (*k as u32)).await;
                 }
             }
             Action::Abort { o } => {
@@ -904,11 +988,11 @@ fn fmt_result(r: &rsactor::ActorResult<SA>) -> String {
 
 /// Run one script on a fresh paused-clock current_thread runtime; returns (observations, monitor failures).
 pub fn run_script(actions: &[Action]) -> (String, Vec<String>) {
-    let rt = tokio::runtime::Builder::new_current_thread()
-        .enable_time()
-        .start_paused(true)
-        .build()
-        .unwrap();
+    let rt = if REALTIME.load(std::sync::atomic::Ordering::Relaxed) {
+        tokio::runtime::Builder::new_multi_thread().worker_threads(4).enable_time().build().unwrap()
+    } else {
+        tokio::runtime::Builder::new_current_thread().enable_time().start_paused(true).build().unwrap()
+    };
     let res = rt.block_on(async {
         let mut d = Director::new();
         for a in actions {
